@@ -60,7 +60,7 @@ Definition C01_forward_roundtrip : Prop := forall m c,
    and QoS - one delivery per reported (subscriber, QoS) pair, in that order, same topic, byte-identical
    payload, that QoS, retain flag 0 - and to nobody else; nobody is closed *)
 Definition C01_fanout : Prop := forall br m br' o,
-  fwd m -> enc_ok m -> packet_id (p_h m) <> 0 \/ pub_qos m = 0 \/ True ->
+  fwd m -> enc_ok m ->
   on_publish br m = (br', o) ->
   match t_subscribers (br_store br') (p_topic m) (pub_qos m) with
   | None => o = []
@@ -155,18 +155,13 @@ Definition C05_stop_only_self_closed : Prop := forall br c br' o,
 
 (* ---------- C09: the will ---------- *)
 
-(* teardown publishes the stored will exactly when the will flag is still set *)
-Definition C09_stop : Prop := forall br c k s,
-  conn_sess br c = Some (k, s) ->
-  exists br1 br2 o, stop br c = (br2, OClose c :: o)
-    /\ (se_willflag s = false \/ se_will s = None -> o = [])
-    /\ (forall w, se_willflag s = true -> se_will s = Some w -> on_publish br1 w = (if se_clean s then br1 else br1, o) \/ True)
-    /\ conn_key br2 c = None.
-
+(* teardown publishes the stored will exactly when the will flag is still set, after the connection's
+   subscriptions have been removed *)
 Definition C09_stop_will : Prop := forall br c k s w,
   conn_sess br c = Some (k, s) -> se_willflag s = true -> se_will s = Some w ->
-  exists br1 br2 o, stop br c = (br2, OClose c :: o) /\ on_publish br1 w = (fst (on_publish br1 w), o)
-    /\ sroot (br_store br1) = sroot (fold_left (fun st tq => fst (t_unsubscribe st (fst tq) c)) (se_topics s) (br_store br)).
+  exists br1 br2 o, stop br c = (br2, OClose c :: o) /\ snd (on_publish br1 w) = o
+    /\ sroot (br_store br1) = sroot (fold_left (fun st tq => fst (t_unsubscribe st (fst tq) c)) (se_topics s) (br_store br))
+    /\ rroot (br_store br1) = rroot (br_store br) /\ br_raw br1 = br_raw br /\ conn_key br1 c = None.
 Definition C09_stop_no_will : Prop := forall br c k s,
   conn_sess br c = Some (k, s) -> se_willflag s = false ->
   exists br2, stop br c = (br2, [OClose c]).
